@@ -54,7 +54,7 @@ func init() {
 			for i := 0; i < 8; i++ {
 				u = append(u, "read#"+strconv.Itoa(i))
 			}
-			return append(u, "legacyread", "typed")
+			return append(u, "legacyread", "typed", "short-write")
 		},
 		Run:    c11Run,
 		Budget: dur(3*time.Minute, 15*time.Minute),
@@ -388,6 +388,69 @@ func c11Run(c *hx.Ctx, tier, unit string) {
 			}
 		}
 		c.Sample(map[string]any{"stored_masks": fmt.Sprintf("%d..%d", k*32, k*32+31), "required_masks": "0..255", "files": "absent,0..3 bytes,4 bytes,4+value"})
+	case unit == "short-write":
+		// a write() on efivarfs is one SetVariable call: when the filesystem takes only part of
+		// the buffer the operation must fail, not issue a second write with the rest
+		for _, api := range []string{"EFIFS.WriteVar", "FSWrapper.WriteEfivarsWithGuid", "attributes.WriteEfivarsWithGuid"} {
+			for _, at := range []uint32{0x07, 0x27, 0x67} {
+				for _, v := range c11Values()[1:] {
+					if len(v.enc) == 0 || !c.Next() {
+						continue
+					}
+					rec := recfs.New()
+					rec.Fault = func(k int, op string) string {
+						if op == "f.Write" {
+							for _, e := range rec.Events {
+								if e.Op == "f.Write" && len(e.Data) > 0 && &e != nil {
+									return "" // only the first write is cut short
+								}
+							}
+							return "short"
+						}
+						return ""
+					}
+					g := unwire(ownerA)
+					var err error
+					pn := hx.Try(func() {
+						switch api {
+						case "EFIFS.WriteVar":
+							fw := fswrapper.NewMemoryWrapper()
+							fw.SetFS(rec)
+							err = (&efivarfs.EFIFS{FSWrapper: fw}).WriteVar(efivar.Efivar{Name: "V", GUID: &g, Attributes: attributes.Attributes(at)}, v.m)
+						case "FSWrapper.WriteEfivarsWithGuid":
+							fw := fswrapper.NewMemoryWrapper()
+							fw.SetFS(rec)
+							err = fw.WriteEfivarsWithGuid("V", attributes.Attributes(at), v.enc, g)
+						default:
+							efifs.SetFS(rec)
+							err = attributes.WriteEfivarsWithGuid("V", attributes.Attributes(at), v.enc, g)
+						}
+					})
+					writes := 0
+					var tr []string
+					for _, e := range rec.Events {
+						tr = append(tr, e.String())
+						if e.Op == "f.Write" {
+							writes++
+						}
+					}
+					d := map[string]any{"api": api, "attrs": at, "value": v.name, "trace": tr, "error": fmt.Sprint(err)}
+					switch {
+					case pn != nil:
+						c.Violation("C11 short write via "+api+": ends in "+pn.String(), d)
+					case writes != 1:
+						c.Outcome("violation")
+						c.Violation(fmt.Sprintf("C11 short write via %s: %d write operations instead of exactly one (a partial write is retried)", api, writes), d)
+					case err == nil:
+						c.Outcome("violation")
+						c.Violation("C11 short write via "+api+": success reported", d)
+					default:
+						c.Outcome("short-write-ok")
+						c.Nontrivial([]byte(api), []byte{byte(at)}, []byte(v.name))
+					}
+				}
+			}
+		}
 	case unit == "legacyread":
 		for stored := 0; stored < 256; stored++ {
 			for _, n := range []int{-1, 0, 1, 3, 4, 11} {
